@@ -9,6 +9,7 @@ are parameters: theorems hold for every curve; in the correspondence their value
 real component (oracle) at the loads / powers the model itself computes.
 -/
 import FeemsModel.Model.Basic
+import FeemsModel.Model.Pchip
 
 namespace Feems.Comp
 
@@ -45,6 +46,28 @@ def outFromIn (η inv : Rat → Rat) (rated inp : Rat) : Rat :=
 
 /-- The samples the inverse interpolant is built from: `arange(-rated, rated, rated/100)`. -/
 def knotOut (rated : Rat) (k : Nat) : Rat := -rated + k * (rated / 100)
+
+/-- The supply side of sample `k`: the forward map at `knotOut rated k` (`power_in = power_out / η̂(load)`). -/
+def knotIn (η : Rat → Rat) (rated : Rat) (k : Nat) : Rat := fwd η rated (knotOut rated k)
+
+/-- The constructor's test on the 200 samples (`(diff_power_in > 0).all()`; the all-falling alternative the code also
+lets through cannot occur: a sample has the sign of its delivered power). -/
+def tableMonotoneB (η : Rat → Rat) (rated : Rat) : Bool :=
+  (List.range 199).all fun k => decide (knotIn η rated k < knotIn η rated (k + 1))
+
+/-- **The interpolated inverse as the constructor builds it**: the shape-preserving cubic interpolant
+(`Feems.Pchip.eval`, the model of `PchipInterpolator(power_in, power_out, extrapolate=True)`) through the
+200 samples of the forward map.  With this the inverse is no longer an oracle: it is computed by the model
+from the characteristic. -/
+def invTable (η : Rat → Rat) (rated : Rat) (v : Rat) : Rat :=
+  Pchip.eval 200 (knotIn η rated) (knotOut rated) v
+
+/-- The characteristic from the points the component was given (`Pchip.curve`; a rejected list cannot reach
+here: the constructor raised). -/
+def etaOfPoints (pts : List (Rat × Rat)) (x : Rat) : Rat :=
+  match Pchip.curve pts x with
+  | .ok v => v
+  | .error _ => 1
 
 /-! ### Serial trains (`SerialSystem.__init__`) -/
 
